@@ -320,7 +320,8 @@ class Closure:
                 mk = (id(T["_o"]), a, b, k)
                 if mk not in self.memo:
                     try:
-                        r = type_transform(dec(vj), T["_o"], options=make_options(self.o, MODES[0], {"no_data_loss": a, "no_explicit_cast": b}))
+                        r = type_transform(dec(vj), T["_o"], options=make_options(self.o, MODES[0], dict({"no_data_loss": a, "no_explicit_cast": b},
+                                                                                         **({"addition": False} if a else {}))))
                         self.memo[mk] = enc(r)
                     except Exception:
                         self.memo[mk] = ("fail",)
